@@ -335,6 +335,39 @@ def num_family(rng, n, exhaustive_len=3):
     return out
 
 
+
+# ----------------------------------------------------------------------------- line-break family (C04, C05, C02, C03)
+
+ML_TEMPLATES = [
+    "%* 'a{}b' c;", "%* \"a{}b\";", "%* a{}b;", "%* don't{} it's;", "%* 'a{}b{}", "/* a{}b */", "/*{}", "* a{}b;", "* 'a{}';",
+    "'a{}b'", "\"a{}b\"", "\"a&x{}b\"", "\"a%m({}){}\"", "'a''{}'n", "\"00{}\"x", "'a{}", "\"a{}",
+    "%str(a{}b)", "%nrstr(a{})", "%str('a{}b')", "%str(%'{})", "%str(a{}",
+    "%let a=b{}c;", "%let a{}={}b;", "%put a{};", "%put 'a{}b' \"c{}d\";", "%put &a{}&b;", "%let a=/* c{} */b;",
+    "%m(a{},b{}=c)", "%m(({}))", "%m{}(a)", "%m(a='x{}y')", "%m(a{}",
+    "%eval(1{}+2)", "%eval({}1 eq{}2)", "%sysevalf(1.5{},{}int)", "%eval(a{}ne{}b)", "%if a{}eq b %then{}c;",
+    "%sysfunc(f(a{}),b{})", "%sysfunc({}f{}(a))", "%scan(a{},{}1)", "%substr(&a,{}1,{}2)",
+    "datalines;{}1 2{};", "datalines4;{}x;{};;;;", "cards;{}", "lines4;{};;;{}", "data a;{}datalines;{}1{};{}run;",
+    "%macro m(a{},b=1{})/ des='x{}y';", "%macro{}m;{}%mend;", "%macro m/{}store;", "%mend{}m;",
+    "%do i=1{}%to 2{}%by 1;", "%do{}%while(a{});", "%do %until({}a);", "%end{};",
+    "&a{}.b", "&&a{}&b", "&a.{}", "%lbl{}:", "a %lbl{}: b", "1{}e5", "$f{}5.", "a={}*b;", "a;{}*c{};", "x{};;{};",
+    "%local a{}b;", "%global{}a;", "%goto{}l;", "%copy m{}/{}s;", "%syscall f({}a{});", "%include{}f;", "%sysexec ls{}-l;",
+    "%input{}a;", "%window w{};", "%then{}", "%else{}a;", "﻿{}a", "é{}é", "\U0001F525{}",
+]
+ML_BREAKS = ["\n", "\n", "\r\n", "\n\n", "\n \n", " \n", "\n\t", "\r", ""]
+
+
+def multiline_family(rng, n):
+    out = []
+    for _ in range(n):
+        parts = []
+        for _ in range(rng.randint(1, 3)):
+            t = rng.choice(ML_TEMPLATES)
+            while "{}" in t:
+                t = t.replace("{}", rng.choice(ML_BREAKS), 1)
+            parts.append(t)
+        out.append(rng.choice(["", "", " ", "\n", ";"]).join(parts))
+    return out
+
 # ----------------------------------------------------------------------------- C18 family
 
 SEP_STATS = ["%let a=1;", "%put x;", "%if 1 %then", "%else", "%do;", "%end;", "%macro m;", "%mend;", "%global g;",
